@@ -539,6 +539,8 @@ class Interp:
 
     def _operand(self, fn, o, env):
         o = o.strip()
+        if o.startswith("no_retag "):
+            o = o[len("no_retag "):]
         if o.startswith("copy "):
             return self._place(fn, o[5:], env)
         if o.startswith("move "):
@@ -610,6 +612,8 @@ class Interp:
     def _rvalue(self, fn, r, env, dest=None):
         r = r.strip()
         sem = self.sem
+        if r.startswith("no_retag "):
+            r = r[len("no_retag "):]
         if r.startswith(("copy ", "move ", "const ")):
             # may be a cast: `copy _2 as f64 (FloatToFloat)`
             m = re.match(r"^((?:copy|move|const) .+?) as (.+?) \((\w+)(?:\(.*\))?\)$", r)
